@@ -287,8 +287,12 @@ func programs(thorough bool, emit func(p program)) {
 		var rec func(cur []slot, chained bool)
 		rec = func(cur []slot, chained bool) {
 			if len(cur) == f.n {
-				for _, m := range f.markers {
-					emit(program{Slots: append([]slot{}, cur...), Marker: m, Engine: "On"})
+				for mi, m := range f.markers {
+					pr := program{Slots: append([]slot{}, cur...), Marker: m, Engine: "On", MName: f.mname}
+					if mi < len(f.dups) {
+						pr.Dup = f.dups[mi]
+					}
+					emit(pr)
 				}
 				for _, m := range f.detOnly {
 					emit(program{Slots: append([]slot{}, cur...), Marker: m, Engine: "DetectionOnly"})
